@@ -1,6 +1,6 @@
 PROPERTY = "C02"
 LEVEL = "proof"
-LEAN_MODULES = ["CifModel.Props.C02", "CifModel.Props.C02Doc", "CifModel.Props.C02Total", "CifModel.Props.ReviewC02"]
+LEAN_MODULES = ["CifModel.Props.C02", "CifModel.Props.C02Doc", "CifModel.Props.C02Total", "CifModel.Props.C02Column", "CifModel.Props.ReviewC02"]
 REQUIRED = ["CifModel.C02_text_protocol", "CifModel.C02_fold_line_progress", "CifModel.C02_text_total",
             "CifModel.C02_flags_semis", "CifModel.C02_char_text_roundtrip",
             "CifModel.C02_analysis_facts", "CifModel.C02_write_char_text",
@@ -11,7 +11,9 @@ REQUIRED = ["CifModel.C02_text_protocol", "CifModel.C02_fold_line_progress", "Ci
             "CifModel.C02_roundtrip_doc_nested",
             "CifModel.C02_key_refused_iff", "CifModel.C02_key_step_is_the_loop", "CifModel.C02_total_iff",
             "CifModel.C02_presented_key_writable", "CifModel.C02_refused_key_unwritable_partial",
-            "CifModel.C02_cex_key_first_line", "CifModel.C02_cex_key_first_line_refused", "CifModel.C02_key_boundary"]
+            "CifModel.C02_cex_key_first_line", "CifModel.C02_cex_key_first_line_refused", "CifModel.C02_key_boundary",
+            "CifModel.C02_last_column_exact", "CifModel.C02_last_column_exact_doc", "CifModel.C02_lastLineLength_spec",
+            "CifModel.C02_clean_of_line_hypotheses", "CifModel.C02_cex_column_cr"]
 GEN = ["WriterConsts", "ErrCodes"]
 FAMILIES = ["decode", "writeval", "write"]
 TRUSTED_BASE = [
